@@ -163,23 +163,25 @@ Proof.
   destruct (Compile.is_agg_node (tbl i)) eqn:Eagg; cbn [truthy].
   { exists [], [i]. split; [|split; reflexivity].
     unfold loc0. cbn [PyMini.exec_block PyMini.exec PyMini.eval bind read write locals fields lookup update String.eqb
-                      Ascii.eqb Bool.eqb method_call]. rewrite map_app, app_nil_r. reflexivity. }
+                      Ascii.eqb Bool.eqb method_call]. rewrite !map_app. cbn [map]. rewrite ?app_nil_r. reflexivity. }
   rewrite exec_block_cons.
   erewrite exec_if; [|erewrite eval_prim1 by (apply eval_name; reflexivity); rewrite isinstance_col; reflexivity|reflexivity].
-  destruct (tbl i) as [v dt|c dt|op j args dt|args|args|args dt|f j args dt agg|e k|e a dt|] eqn:En; cbn [truthy];
-    try (exists [i], []; split; [|split; cbn [map]; rewrite En; reflexivity];
-         unfold loc0; cbn [PyMini.exec_block PyMini.exec PyMini.eval bind read write locals fields lookup update String.eqb
-                           Ascii.eqb Bool.eqb method_call]; rewrite map_app, app_nil_r; reflexivity);
-    (exists (flat_map colsf (kids i)), (flat_map aggsf (kids i));
-     destruct (walk_many_kids (kids i) Hmodel) as [W1 W2]; rewrite Hkids in W1, W2;
-     split; [|split; assumption];
-     rewrite exec_block_cons;
-     rewrite (exec_for call_ref prim "child" _ rec_loop_body _ {| locals := loc0; fields := [] |} (map nref (kids i)))
-       by (unfold loc0; cbn [PyMini.eval bind read locals fields lookup String.eqb Ascii.eqb Bool.eqb];
-           rewrite childnodes_nref; reflexivity);
-     destruct (rec_loop (kids i) cs ags loc0 [] Hrec eq_refl eq_refl) as (loc' & -> & Hc' & Ha');
-     cbn [bind PyMini.exec_block PyMini.exec PyMini.eval read locals fields]; rewrite Hc'; cbn [bind read locals];
-     rewrite Ha'; reflexivity).
+  destruct (match tbl i with Compile.NCol _ _ => true | _ => false end) eqn:Ecol; cbn [truthy].
+  { exists [i], []. split; [|split].
+    - unfold loc0. cbn [PyMini.exec_block PyMini.exec PyMini.eval bind read write locals fields lookup update String.eqb
+                        Ascii.eqb Bool.eqb method_call]. rewrite !map_app. cbn [map]. rewrite ?app_nil_r. reflexivity.
+    - cbn [map]. destruct (tbl i); try discriminate Ecol. reflexivity.
+    - cbn [map]. destruct (tbl i); try discriminate Ecol. reflexivity. }
+  exists (flat_map colsf (kids i)), (flat_map aggsf (kids i)).
+  destruct (walk_many_kids (kids i) Hmodel) as [W1 W2]. rewrite Hkids in W1, W2.
+  split; [|split; [destruct (tbl i); try discriminate Ecol; exact W1|destruct (tbl i); try discriminate Ecol; exact W2]].
+  rewrite exec_block_cons.
+  rewrite (exec_for call_ref prim "child" _ rec_loop_body _ {| locals := loc0; fields := [] |} (map nref (kids i)))
+    by (unfold loc0; cbn [PyMini.eval bind read locals fields lookup String.eqb Ascii.eqb Bool.eqb];
+        rewrite childnodes_nref; reflexivity).
+  destruct (rec_loop (kids i) cs ags loc0 [] Hrec eq_refl eq_refl) as (loc' & -> & Hc' & Ha').
+  cbn [bind PyMini.exec_block PyMini.exec PyMini.eval read locals fields]. rewrite Hc'. cbn [bind read locals].
+  rewrite Ha'. reflexivity.
 Qed.
 
 End Rec.
@@ -204,13 +206,15 @@ Lemma chk_inner : forall (ks : list nat) loc flds,
 Proof.
   induction ks as [|c t IH]; intros loc flds.
   - exists loc. reflexivity.
-  - cbn [map PyMiniLemmas.for_loop existsb]. unfold chk_inner_body at 1.
+  - assert (Estep : for_loop chk_inner_body "child" {| locals := loc; fields := flds |} (nref c :: map nref t) =
+                    if Compile.has_agg (tbl c) then Exc (CompErr Compile.EAggOfAgg)
+                    else for_loop chk_inner_body "child" {| locals := update "child" (nref c) loc; fields := flds |}
+                           (map nref t)).
+    { cbn [PyMiniLemmas.for_loop]. unfold chk_inner_body at 1. run. unfold do_call. rewrite Hagg.
+      destruct (Compile.has_agg (tbl c)); run; [rewrite prim_raise; reflexivity|reflexivity]. }
+    cbn [map existsb]. rewrite Estep.
     specialize (IH (update "child" (nref c) loc) flds).
-    destruct (Compile.has_agg (tbl c)) eqn:E; cbn [orb].
-    + run. unfold do_call. rewrite Hagg, E. run. rewrite prim_raise. reflexivity.
-    + destruct (existsb (fun c0 => Compile.has_agg (tbl c0)) t).
-      * run. unfold do_call. rewrite Hagg, E. run. exact IH.
-      * destruct IH as [loc' IH]. exists loc'. run. unfold do_call. rewrite Hagg, E. run. exact IH.
+    destruct (Compile.has_agg (tbl c)); cbn [orb]; [reflexivity|exact IH].
 Qed.
 
 Lemma chk_outer : forall (ags : list nat) loc flds,
@@ -221,17 +225,26 @@ Lemma chk_outer : forall (ags : list nat) loc flds,
 Proof.
   induction ags as [|a t IH]; intros loc flds.
   - exists loc. reflexivity.
-  - cbn [map PyMiniLemmas.for_loop existsb]. unfold chk_outer_body at 1.
-    rewrite exec_block_cons.
-    rewrite (exec_for call_ref prim "child" _ chk_inner_body _
-               {| locals := update "aggregate" (nref a) loc; fields := flds |} (map nref (kids a)))
-      by (cbn [PyMini.eval bind read write locals fields]; rewrite lookup_update_eq; cbn [bind];
-          rewrite childnodes_nref; reflexivity).
-    pose proof (chk_inner (kids a) (update "aggregate" (nref a) loc) flds) as HI.
+  - pose proof (chk_inner (kids a) (update "aggregate" (nref a) loc) flds) as HI.
+    assert (Estep : for_loop chk_outer_body "aggregate" {| locals := loc; fields := flds |} (nref a :: map nref t) =
+                    bind (for_loop chk_inner_body "child" {| locals := update "aggregate" (nref a) loc; fields := flds |}
+                            (map nref (kids a)))
+                      (fun o => match o with
+                                | Next s1 => for_loop chk_outer_body "aggregate" s1 (map nref t)
+                                | Ret _ _ => Ok o
+                                end)).
+    { cbn [PyMiniLemmas.for_loop]. unfold chk_outer_body at 1. rewrite exec_block_cons.
+      rewrite (exec_for call_ref prim "child" _ chk_inner_body _
+                 {| locals := update "aggregate" (nref a) loc; fields := flds |} (map nref (kids a)))
+        by (cbn [PyMini.eval bind read write locals fields]; rewrite lookup_update_eq; cbn [bind];
+            rewrite childnodes_nref; reflexivity).
+      cbn [write locals fields].
+      destruct (for_loop chk_inner_body "child" {| locals := update "aggregate" (nref a) loc; fields := flds |}
+                  (map nref (kids a))) as [[s1|s1 v]| |]; reflexivity. }
+    cbn [map existsb]. rewrite Estep.
     destruct (existsb (fun c => Compile.has_agg (tbl c)) (kids a)); cbn [orb].
-    + cbn [write locals fields] in *. rewrite HI. reflexivity.
-    + destruct HI as [loc1 HI]. cbn [write locals fields] in *. rewrite HI. cbn [bind PyMini.exec_block].
-      apply IH.
+    + rewrite HI. reflexivity.
+    + destruct HI as [loc1 ->]. cbn [bind]. apply IH.
 Qed.
 
 Theorem check_aggregates_src : forall (kg i : nat) (cs ags : list nat),
@@ -260,11 +273,14 @@ Proof.
   rewrite exec_block_cons.
   cbn [PyMini.exec PyMini.eval bind read locals fields lookup String.eqb Ascii.eqb Bool.eqb do_call].
   rewrite Hc. cbn [bind write locals fields update String.eqb Ascii.eqb Bool.eqb].
-  set (loc2 := [("c_expr", nref i); ("columns", PList (map nref cs)); ("aggregates", PList (map nref ags))]).
   rewrite exec_block_cons.
   destruct cs as [|c0 cs']; [|destruct ags as [|a0 ags']]; cbn [map CompileProofs.nonempty andb].
   - (* no column outside an aggregate *)
-    unfold loc2 at 1. run. fold loc2. rewrite exec_block_cons.
+    erewrite exec_if; [|reflexivity|reflexivity].
+    rewrite exec_block_nil. cbn [bind]. rewrite exec_block_cons.
+    match goal with |- context [SFor "aggregate" (XName "aggregates") ?b] =>
+      change (SFor "aggregate" (XName "aggregates") b) with (SFor "aggregate" (XName "aggregates") chk_outer_body) end.
+    set (loc2 := [("c_expr", nref i); ("columns", PList []); ("aggregates", PList (map nref ags))]).
     rewrite (exec_for call_ref prim "aggregate" _ chk_outer_body _ {| locals := loc2; fields := [] |} (map nref ags))
       by reflexivity.
     pose proof (chk_outer ags loc2 []) as HO.
@@ -272,9 +288,9 @@ Proof.
     + rewrite HO. reflexivity.
     + destruct HO as [loc' ->]. reflexivity.
   - (* columns, no aggregate *)
-    unfold loc2. run. reflexivity.
+    run. reflexivity.
   - (* both: mixed *)
-    unfold loc2. run. rewrite prim_raise. reflexivity.
+    run. rewrite prim_raise. reflexivity.
 Qed.
 
 End Check.
